@@ -40,6 +40,24 @@ def bin_cases(draw):
     n = draw(st.integers(1, 6))
     a, b = draw(st.integers(1, 5)), draw(st.integers(1, 5))
     lead = tuple(draw(st.sampled_from([(), (), (1,), (3,), (2, 2)])))
+    if draw(st.integers(0, 3)) == 0:
+        # heavy binning of bright or dark narrow-integer frames (n up to 40: a block of n*n saturated 8-bit pixels needs
+        # up to 19 bits): the block sums are the sums as numbers for every bin factor, not only for the small ones
+        n = draw(st.integers(7, 40))
+        a, b = draw(st.integers(1, 2)), draw(st.integers(1, 2))
+        lead = tuple(draw(st.sampled_from([(), (2,)])))
+        dt = draw(st.sampled_from(["uint8", "int8", "uint16", "int16", "bool", "int32"]))
+        info = np.iinfo(dt) if dt != "bool" else None
+        side = draw(st.sampled_from(["high", "high", "low"]))
+        shape = lead + (a * n, b * n)
+        jit = draw(gen.int_array(shape, 0, 7, dtype="int64"))
+        if dt == "bool":
+            data = jit < 7
+        elif side == "high":
+            data = (info.max - jit).astype(dt)
+        else:
+            data = (info.min + jit).astype(dt)
+        return {"data": data, "n": n, "n_as": draw(st.sampled_from(["int", "float", "np"]))}
     shape = lead + (a * n, b * n)
     dt = draw(st.sampled_from(["float64", "float32", "int64", "int32", "complex128", "uint8", "uint16", "int16", "bool", ">i2", ">u2", ">i4", ">f4"]))
     if dt in (">i2", ">u2", ">i4", ">f4"):
@@ -68,7 +86,7 @@ def bin_body(ctx, case):
     data, n = case["data"], case["n"]
     # a bin factor computed as a ratio of two lengths (0.3 / 0.1 = 2.9999999999999996) is the integer next to it
     nn = {"int": n, "float": float(n), "np": np.int64(n), "float_below": float(np.nextafter(float(n), 0.0)), "float_above": float(np.nextafter(float(n), np.inf)), "float32": np.float32(n)}[case["n_as"]]
-    ctx.case(case, nontrivial=n >= 2 and data.ndim >= 3, classes=["n%d" % n, "rank%d" % data.ndim, str(data.dtype)])
+    ctx.case(case, nontrivial=n >= 2 and data.ndim >= 3, classes=["n%d" % n if n <= 6 else "n7to40", "rank%d" % data.ndim, str(data.dtype)])
     d0 = data.copy()
     out = I().binImgs(data, nn)
     ctx.equal(data, d0, "binImgs modified its input")
